@@ -1726,6 +1726,76 @@ fn run_all(rep: &mut Report) {
     }
 
     run_grid(rep);
+    run_rooted_cache(rep);
+}
+
+// ------------------------------------------------------------------------------------------------
+// A ZstCache that is reachable from the root (directly, inside a derived struct, inside an Option, behind a
+// Gc) keeps its cached allocation alive: pointers handed out before and after any number of collections are
+// the same object, a weak pointer to it still upgrades, nothing is released.
+// ------------------------------------------------------------------------------------------------
+#[derive(Collect)]
+#[collect(no_drop)]
+struct CacheHolder<'gc> {
+    pad: u32,
+    cache: ZstCache<'gc, 8>,
+}
+
+#[derive(Collect)]
+#[collect(no_drop)]
+struct CacheRoot<'gc> {
+    direct: ZstCache<'gc, 8>,
+    in_struct: CacheHolder<'gc>,
+    in_option: Option<ZstCache<'gc, 8>>,
+    behind_gc: Gc<'gc, CacheHolder<'gc>>,
+    weaks: Gc<'gc, gc_arena::lock::RefLock<Vec<GcWeak<'gc, ZstD>>>>,
+}
+
+fn run_rooted_cache(rep: &mut Report) {
+    if !rep.wants("zst_rooted") {
+        return;
+    }
+    let mut arena = Arena::<Rootable![CacheRoot<'_>]>::new(|mc| CacheRoot {
+        direct: ZstCache::new(mc),
+        in_struct: CacheHolder { pad: 1, cache: ZstCache::new(mc) },
+        in_option: Some(ZstCache::new(mc)),
+        behind_gc: Gc::new(mc, CacheHolder { pad: 2, cache: ZstCache::new(mc) }),
+        weaks: Gc::new(mc, gc_arena::lock::RefLock::new(Vec::new())),
+    });
+    let names = ["direct", "in_struct", "in_option", "behind_gc"];
+    let before = arena.metrics().total_gc_count();
+    // weak pointers to the four cached allocations, taken before any collection
+    arena.mutate(|mc, root| {
+        let caches = [&root.direct, &root.in_struct.cache, root.in_option.as_ref().unwrap(), &root.behind_gc.cache];
+        let mut w = root.weaks.borrow_mut(mc);
+        for c in caches {
+            let p: Gc<'_, ZstD> = c.alloc(mc, ZstD);
+            w.push(Gc::downgrade(p));
+        }
+    });
+    for round in 0..3 {
+        arena.finish_cycle();
+        arena.finish_cycle();
+        let now = arena.metrics().total_gc_count();
+        rep.check("zst_rooted", &format!("round{round}/count"),
+                  if now == before { Ok(()) } else { Err(format!("total_gc_count went from {before} to {now} although every cache is reachable from the root")) });
+        arena.mutate(|mc, root| {
+            let caches = [&root.direct, &root.in_struct.cache, root.in_option.as_ref().unwrap(), &root.behind_gc.cache];
+            let weaks = root.weaks.borrow();
+            for (i, c) in caches.iter().enumerate() {
+                let mut pr = Problems::new();
+                let up = weaks[i].upgrade(mc);
+                pr.truth("weak pointer to the cached allocation is not dropped", !weaks[i].is_dropped());
+                pr.truth("weak pointer to the cached allocation upgrades", up.is_some());
+                if up.is_some() {
+                    let p: Gc<'_, ZstD> = c.alloc(mc, ZstD);
+                    pr.truth("alloc hands out the cached allocation", c.is_cached(p));
+                    pr.truth("same object as before the collections", Gc::ptr_eq(p, up.unwrap()));
+                }
+                rep.check("zst_rooted", &format!("round{round}/{}", names[i]), pr.done());
+            }
+        });
+    }
 }
 
 fn main() {
